@@ -24,6 +24,29 @@ func c01GenOp(t *rapid.T, first bool, ver int) *world.Op {
 	if first {
 		kinds = []string{"install", "install", "install", "upgrade", "rollback", "uninstall"}
 	}
+	return c01GenOpOf(t, kinds, ver)
+}
+
+// c01GenOpAfter draws the next operation the way a user reacts to the state of the history: after an uninstall that kept
+// the history the name is usually installed again (with --replace), after a failure the release is often uninstalled.
+func c01GenOpAfter(t *rapid.T, hist []world.Rev, ver int) *world.Op {
+	if len(hist) == 0 {
+		return c01GenOp(t, true, ver)
+	}
+	switch hist[len(hist)-1].Status {
+	case "uninstalled":
+		op := c01GenOpOf(t, []string{"install", "install", "install", "install", "upgrade", "rollback", "uninstall"}, ver)
+		if op.Kind == "install" && rapid.Bool().Draw(t, "replaceAfterUninstall") {
+			op.Replace = true
+		}
+		return op
+	case "failed":
+		return c01GenOpOf(t, []string{"install", "upgrade", "upgrade", "rollback", "rollback", "uninstall", "uninstall", "uninstall"}, ver)
+	}
+	return c01GenOp(t, false, ver)
+}
+
+func c01GenOpOf(t *rapid.T, kinds []string, ver int) *world.Op {
 	op := &world.Op{Kind: rapid.SampledFrom(kinds).Draw(t, "op")}
 	op.DisableHooks = rapid.IntRange(0, 3).Draw(t, "noHooks") == 0
 	switch op.Kind {
@@ -355,7 +378,7 @@ func c01Prop(t *rapid.T) {
 		if i < len(prefix) {
 			op = prefix[i]
 		} else {
-			op = c01GenOp(t, i == 0 || len(w.History()) == 0, i+1)
+			op = c01GenOpAfter(t, w.History(), i+1)
 			if len(prefix) > 0 && op.MaxHistory > 0 && rapid.Bool().Draw(t, "largerLimit") {
 				op.MaxHistory += 4
 			}
@@ -465,7 +488,7 @@ func TestC01_Known(t *testing.T) { runKnownWorldCases(t, "C01", c01RunCase) }
 
 func TestC01_Replay(t *testing.T) { replayWorldCase(t, c01RunCase) }
 
-const c01Rule = "C01: rapid-generated histories (1..8 operations quick, 1..12 thorough) of install/upgrade/rollback/uninstall with flags (atomic, replace, cleanup-on-fail, keep-history, max-history 0..4, no-hooks) over generated charts and hook sets, on the memory, Secret and ConfigMap backends (the two Kubernetes backends list records by name, as an API server does); one case in five starts from a history of 9-12 revisions; each operation draws a fault plan (none | k-th cluster request rejected | k-th waiter call fails | k-th storage write fails | a storage READ fails, half of them aimed at the 'which revision is deployed' lookups | process death at external call k) with k drawn from the number of calls the operation really makes (counted on a clone); the thorough tier additionally enumerates every k for every fault kind for the last operation of a quarter of the histories. Ledger invariants I1-I5 are evaluated after every operation, including the recovery operations after a crash. Non-trivial = at least 2 operations and (a fault fired, or a crash happened, or pruning deleted a revision, or a rollback / install --replace created a revision); distinct by (backend, operations with flags and fault positions)."
+const c01Rule = "C01: rapid-generated histories (1..8 operations quick, 1..12 thorough) of install/upgrade/rollback/uninstall with flags (atomic, replace, cleanup-on-fail, keep-history, max-history 0..4, no-hooks) over generated charts and hook sets (the next operation is drawn with weights that follow the state of the history: a reinstall with --replace after an uninstall that kept the history, more uninstalls after a failure), on the memory, Secret and ConfigMap backends (the two Kubernetes backends list records by name, as an API server does); one case in five starts from a history of 9-12 revisions; each operation draws a fault plan (none | k-th cluster request rejected | k-th waiter call fails | k-th storage write fails | a storage READ fails, half of them aimed at the 'which revision is deployed' lookups | process death at external call k) with k drawn from the number of calls the operation really makes (counted on a clone); the thorough tier additionally enumerates every k for every fault kind for the last operation of a quarter of the histories. Ledger invariants I1-I5 are evaluated after every operation, including the recovery operations after a crash. Non-trivial = at least 2 operations and (a fault fired, or a crash happened, or pruning deleted a revision, or a rollback / install --replace created a revision); distinct by (backend, operations with flags and fault positions)."
 
 var c01Assumptions = []string{
 	"the cluster is the in-memory API-server simulator behind the real kube.Client (no admission, defaulting, conflicts, finalizers)",
